@@ -42,6 +42,52 @@ def counts(out):
     return [d['files'], d['folders'], d['symlinks'], c['files'], c['folders'], c['symlinks'], out['nothing']]
 
 
+def run_dry_table(run, binary, base):
+    """Every cell of the trailing-slash table (file / link / folder source, with and without trailing slashes, destination
+    missing - with 0 or 2 missing ancestors -, file, link or folder) under --dry-run: NOTHING in the sandbox may change,
+    not even missing destination ancestors; and the dry run succeeds exactly when the real run does."""
+    T0 = sync_e2e.T0
+    fdata = lambda s_, dt: {'k': 'file', 'data': s_, 'mtime_ns': T0 + dt}
+    for sk in ('file', 'link', 'dir'):
+        for ss in (False, True):
+            for dk in (None, 'file', 'link', 'dir'):
+                for ds in (False, True):
+                    for depth in ((0, 2) if dk is None else (0,)):
+                        res = []
+                        for dry in (True, False):
+                            root = tempfile.mkdtemp(prefix='dtb_', dir=base)
+                            try:
+                                os.mkdir(os.path.join(root, 'box'))
+                                box = os.path.join(root, 'box')
+                                open(os.path.join(box, 'tfile'), 'w').write('tf')
+                                os.mkdir(os.path.join(box, 's'))
+                                os.mkdir(os.path.join(box, 'd'))
+                                stree = {'file': {'': fdata(b'SRC', 1)}, 'link': {'': {'k': 'link', 'text': b'../tfile'}},
+                                         'dir': {'': {'k': 'dir'}, 'x': fdata(b'x', 2), 'sub': {'k': 'dir'}, 'sub/y': fdata(b'yy', 3)}}[sk]
+                                e2e.build_tree(os.path.join(box, 's', 'a'), stree)
+                                dparent = os.path.join(box, 'd', *(['m1', 'm2'][:depth]))
+                                if dk is not None:
+                                    dtree = {'file': {'': fdata(b'OLD', -9)}, 'link': {'': {'k': 'link', 'text': b'../tfile'}},
+                                             'dir': {'': {'k': 'dir'}, 'old': fdata(b'old', -4)}}[dk]
+                                    e2e.build_tree(os.path.join(dparent, 'b'), dtree)
+                                sp = os.path.join(box, 's', 'a') + ('/' if ss else '')
+                                dp = os.path.join(dparent, 'b') + ('/' if ds else '')
+                                before = e2e.snapshot(box)
+                                r = e2e.run_cli(binary, [sp, dp, '--dest-root-needs-deleting', 'delete', '--dest-file-newer', 'overwrite'] + (['--dry-run'] if dry else []), timeout=60)
+                                after = e2e.snapshot(box)
+                                res.append((r['exit'], before == after, [k for k in set(before) | set(after) if before.get(k) != after.get(k)][:4], (r['stdout'] + r['stderr'])[-400:]))
+                            finally:
+                                shutil.rmtree(root, ignore_errors=True)
+                        cell = [sk, ss, dk, ds, depth]
+                        run.count('drytable:exit:%s' % res[0][0])
+                        run.case(('drytable',) + tuple(cell), True, sample={'cell': cell, 'dry_exit': res[0][0], 'real_exit': res[1][0]} if (sk, dk) == ('file', None) and ds else None)
+                        if not res[0][1]:
+                            run.fail('C05 (table cell src=%s%s dest=%s%s, %d missing ancestors): the dry run changed %s' % (sk, '/' if ss else '', dk, '/' if ds else '', depth, res[0][2]),
+                                     {'family': 'drytable', 'cell': cell, 'text': res[0][3]})
+                        elif (res[0][0] == 0) != (res[1][0] == 0):
+                            run.fail('C05 (table cell %s): dry run exit %s but real run exit %s' % (cell, res[0][0], res[1][0]), {'family': 'drytable', 'cell': cell, 'dry_text': res[0][3], 'real_text': res[1][3]})
+
+
 def check(run):
     run.trusted = list(vlib.COMMON_TRUSTED)
     run.assumptions = ['the two runs of a pair start from identical sandboxes (rebuilt from the same scenario)']
@@ -89,6 +135,7 @@ def check(run):
                 run.fail('C05: ' + bad, {'scenario': sc.to_json(), 'dry_text': d['text'][-1200:], 'real_text': orr.impl['text'][-1200:]})
             elif od.mismatch or orr.mismatch:
                 run.broke('correspondence', 'e2e', json.dumps({'scenario': sc.to_json(), 'dry': od.mismatch, 'real': orr.mismatch})[:2500])
+        run_dry_table(run, binary, base)
     finally:
         shutil.rmtree(base, ignore_errors=True)
     return run.finish(search=None)
